@@ -458,6 +458,10 @@ func init() {
 		return c.ret(r)
 	}
 
+	libSpecs["bytes.Equal"] = func(c *callCtx) Val {
+		e := c.e()
+		return c.ret(eq(e.bvOf(c.st, c.args[0]), e.bvOf(c.st, c.args[1])))
+	}
 	// ---- sort ----
 	libSpecs["sort.Slice"] = func(c *callCtx) Val { return sortSpec(c, false) }
 	libSpecs["sort.SliceStable"] = func(c *callCtx) Val { return sortSpec(c, true) }
